@@ -13,7 +13,7 @@ func init() {
 	core.Register(&core.Prop{
 		ID:    "C02",
 		Level: "exploration",
-		Rule: "conflict-dense seeded histories (2 keys / short sequences, 2-4 replicas, partial deliveries) whose final state on every replica and on a log replay (the server's own copy) is compared with a reference computed from the emitted operations only (int32 sum, LWW by (lamport,cuid), RGA tree newest-first, delete dominates update); " +
+		Rule: "conflict-dense seeded histories (2 keys / short sequences, 2-4 replicas, partial deliveries) whose final state on every replica and on a log replay (the server's own copy) is compared with a reference computed from the emitted operations only (int32 sum, LWW by (lamport,cuid), RGA tree newest-first, delete dominates update); a third of the document histories first concentrate multi-value updates / deletes / inserts from all replicas on one array of primitives (overlapping update ranges); " +
 			"non-trivial = the operation set contains a conflict whose winner is not the last one in arrival (log) order, or concurrent same-anchor inserts, or update/delete and update/update conflicts on one element (counter: >=2 contributing clients); distinct = hash of the step script",
 		Assumptions: []string{
 			"operation timestamps are taken as assigned by the clients (ids in the emitted operations)",
@@ -187,6 +187,27 @@ func runC02(c *core.Case) *core.Result {
 		return c.Violation(sig, "%s", msg)
 	}
 	q := 3 // no intermediate forced quiescence: keep conflicts alive
+	if sh.typ == "doc" && c.Index%3 == 0 {
+		// array-focused document history: one array of primitives under key "a", known to every
+		// replica, then dense multi-value updates / deletes / inserts on it from all replicas
+		// (overlapping update ranges, updates of elements another replica deletes meanwhile)
+		var init []interface{}
+		for i := 0; i < 6; i++ {
+			init = append(init, g.Tag())
+		}
+		if _, err := crdt.Apply(h.Reps[0].DT, crdt.Op{Kind: "put", Key: "a", Val: init}); err != nil {
+			return c.Violation("doc:setup", "cannot create the array: %v", err)
+		}
+		if sig, msg := h.Quiesce(); sig != "" {
+			return c.Violation("doc:"+sig, "%s", msg)
+		}
+		g.Tagged = true
+		g.UpdBias = 0.5
+		if sig, msg := arrayPhase(c, h, sh.steps); sig != "" {
+			return c.Violation("doc:"+sig, "%s", msg)
+		}
+		c.Count("array_focused_document_histories", 1)
+	}
 	if sig, msg := randomPhase(c, h, sh.steps, &q); sig != "" {
 		return c.Violation(sh.typ+":"+sig, "%s", msg)
 	}
@@ -212,4 +233,36 @@ func runC02(c *core.Case) *core.Result {
 	}
 	c.Count("histories_"+sh.typ, 1)
 	return c.Held()
+}
+
+// arrayPhase: local sequence calls on the document's array "a" from random replicas,
+// interleaved with syncs and deliveries.
+func arrayPhase(c *core.Case, h *crdt.Hist, steps int) (string, string) {
+	r := c.Rng
+	for s := 0; s < steps; s++ {
+		rep := h.Reps[r.Intn(len(h.Reps))]
+		switch k := r.Intn(10); {
+		case k < 6:
+			ch, err := rep.DT.(orda.Document).GetFromObject("a")
+			if err != nil || ch == nil {
+				continue
+			}
+			arr, _ := ch.GetValue().([]interface{})
+			op := h.G.SeqOp(len(arr), []interface{}{"a"})
+			if _, _, sig, msg := h.Local(rep, op); sig != "" {
+				return sig, msg
+			}
+		case k < 9:
+			upto := rep.Recvd + r.Intn(len(h.Log.Entries)-rep.Recvd+2)
+			if sig, msg := h.Sync(rep, upto); sig != "" {
+				return sig, msg
+			}
+		default:
+			upto := rep.Recvd + r.Intn(len(h.Log.Entries)-rep.Recvd+1)
+			if sig, msg := h.DeliverOnly(rep, upto); sig != "" {
+				return sig, msg
+			}
+		}
+	}
+	return "", ""
 }
